@@ -91,7 +91,7 @@ def gen_stress():
 
 
 SHORT = ["\uAC01", "\uAC00\uAC01", "\u00E9", "e\u0301", "\u212B", "a\u0327\u0301", "a\u0301\u0327", "\u1E9B\u0323", "\u0958", "\u1100\u1161\u11A8",
-         "\u00C5\u0323", "ab", "\u0344", "\u1E14", "U\u0304\u0308", "\u03B1\u0313\u0300"]
+         "\u00C5\u0323", "ab", "\u0344", "\u1E14", "U\u0304\u0308", "\u03B1\u0313\u0300", "q\u0323\u0323\u0323"]
 
 
 def gen_short():
@@ -121,7 +121,7 @@ def norm_string_jobs(prop, tier, only_fn=None):
     if prop not in ("C01", "C03", "C04", "C05", "C08", "C17") or (only_fn and only_fn != "wcsnorm_s"):
         return out
     inc = gen_short()
-    idxs = range(len(SHORT)) if tier != "quick" else [0, 1, 3, 5, 7, 10, 13, 14]
+    idxs = range(len(SHORT)) if tier != "quick" else [0, 1, 3, 5, 7, 10, 13, 14, 16]
     for i in idxs:
         nfd = len(unicodedata.normalize("NFD", SHORT[i]))
         dms = sorted({1, nfd - 1, nfd, nfd + 1, nfd + 2} - {0}) if tier == "quick" else range(1, nfd + 7)
@@ -130,13 +130,14 @@ def norm_string_jobs(prop, tier, only_fn=None):
         if tier == "quick":
             dms = sorted(set(dms) | {succ0, succ})
         alld = sorted({1, nfd - 1, nfd, nfd + 1, nfd + 2} - {0}) if tier == "quick" else range(1, nfd + 7)
-        for mode in (0, 1, 2):  # 2: the decomposition stage alone (wcsnorm_decompose_s), every size incl. Hangul
-            for d in ([x for x in dms if x < succ0] if mode == 1 else dms if mode == 0 else alld):
+        for mode in (0, 1, 2, 3):  # 2: the decomposition stage alone (wcsnorm_decompose_s); 3: the composition stage alone (wcsnorm_compose_s)
+            nfc = len(unicodedata.normalize("NFC", SHORT[i]))
+            for d in ([x for x in dms if x < succ0] if mode == 1 else dms if mode == 0 else alld if mode == 2 else sorted({1, 2, nfc, nfc + 1, nfc + 2})):
                 out.append(Job("wcsnorm_s.%s.short.s%d.m%d.d%d" % (prop, i, mode, d), prop, "h_wnorm.c", NORM,
-                               defines=["-I" + inc, "-DCONCRETE_PRE", "-DBOSK=%d" % (d & 1)] + (["-DDECOMP_ONLY"] if mode == 2 else []) + [ "-DSIDX=%d" % i, "-DMODE=%d" % (mode % 2), "-DDOBJ=%d" % d, "-DVH_MEMSET_WORD"],
+                               defines=["-I" + inc, "-DCONCRETE_PRE", "-DBOSK=%d" % (d & 1)] + (["-DDECOMP_ONLY"] if mode == 2 else ["-DCOMPOSE_ONLY"] if mode == 3 else []) + [ "-DSIDX=%d" % i, "-DMODE=%d" % (1 if mode == 3 else mode % 2), "-DDOBJ=%d" % d, "-DVH_MEMSET_WORD"],
                                models=("libc_models.c", "wide_nd_models.c", "alloc_ok_models.c"), unwind_default=24,
                                unwind_rules=[(r"^(memcpy|memset|mem_prim)", 60)], memchecks=(prop == "C01"), fn="wcsnorm_s", object_bits=12, mem_gb=12,
-                               bounds={"source": "concrete: " + " ".join("U+%04X" % ord(c) for c in SHORT[i]), "mode": ("NFD", "NFC", "decomposition stage only")[mode],
+                               bounds={"source": "concrete: " + " ".join("U+%04X" % ord(c) for c in SHORT[i]), "mode": ("NFD", "NFC", "decomposition stage only", "composition stage only")[mode],
                                        "dest object = dmax": d, "dest prefill": "symbolic"}, timeout=300))
     return out
 
@@ -205,5 +206,5 @@ def jobs(prop, tier, only_fn=None):
                 out.append(Job("wcsnorm_s.C17.stress%d.m%d" % (i, mode), "C17", "h_uni_stress.c", SUP, defines=idef + ["-DSIDX=%d" % i, "-DMODE=%d" % mode],
                                models=("libc_models.c", "alloc_ok_models.c"), unwind_default=140, unwind_rules=[(r"^(memcpy|memset|memmove)", 600)], fn="wcsnorm_s", object_bits=16, timeout=900, mem_gb=16,
                                bounds={"string": "concrete stress string #%d (%d code points: long mark runs, Hangul, exclusions)" % (i, len(STRESS[i])),
-                                       "mode": ("NFD", "NFC", "decomposition stage only")[mode], "dest prefill": "symbolic", "also": "normalising the result again gives the same"}))
+                                       "mode": ("NFD", "NFC", "decomposition stage only", "composition stage only")[mode], "dest prefill": "symbolic", "also": "normalising the result again gives the same"}))
     return out
